@@ -405,7 +405,7 @@ func main() {
 		r.Finish()
 	}
 	if r.Fork(16) {
-		r.Set("rule", "5 valid token sequences (7-70 tokens) x {delete token i, insert each of the 22 kinds before token i, replace token i by each kind, truncate before token i} for every i, and 12 kinds of lexical damage in every gap; each in five layouts (one line; one token per line; CR LF line ends; lone CRs between tokens; block and line comments with LF and CR LF inside in every gap); each rejected mutant re-rendered with 4 different continuations after the offending token; non-trivial = a mutant that is not a specification; distinct by text")
+		r.Set("rule", "5 valid token sequences (7-70 tokens) x {delete token i, insert each of the 22 kinds before token i, replace token i by each kind, truncate before token i} for every i, and 14 kinds of lexical damage (a NUL character among them) in every gap; each in five layouts (one line; one token per line; CR LF line ends; lone CRs between tokens; block and line comments with LF and CR LF inside in every gap); each rejected mutant re-rendered with 4 different continuations after the offending token; non-trivial = a mutant that is not a specification; distinct by text")
 		r.Set("evaluations", r.Get("mutants"))
 		r.Finish()
 	}
@@ -449,7 +449,7 @@ func main() {
 					checkMutant(r, t, append(append(append([]ebnfref.Token{}, toks[:i]...), spell(k)), toks[i+1:]...), "replace")
 				}
 			}
-			for _, dmg := range []string{"#", "é", "0", "_", `"abc`, "/abc", "/* abc", "@lef", "$", "A", "'", "\\"} {
+			for _, dmg := range []string{"#", "é", "0", "_", `"abc`, "/abc", "/* abc", "@lef", "$", "A", "'", "\\", "\x00", "\x00\x00x"} {
 				if mine() {
 					checkLexical(r, t, toks, i, dmg)
 				}
